@@ -1,11 +1,278 @@
 import RtcVerif.Model.C18Homotopy
+import RtcVerif.Proofs.C18Homotopy
+import Mathlib.Tactic.Linarith
 import Mathlib.Tactic.NormNum
+import Mathlib.Algebra.Order.Field.Rat
+/-!
+# C18 — a successful homotopy run has solved the original problem (theta = 1)
+
+All theorems are about `optimize o l` (model of `HomotopyMixin.optimize`, repaired loop body
+`step`), for EVERY option triple `o = (theta_start, delta_theta_0, delta_theta_min)` with
+`delta_theta_0 > 0` and EVERY outcome list `l` of the inner solves (unbounded length); the log
+`s.solves` is newest first.  `optimize o l = some (s, r)`: `r = some b` the run returned `b`,
+`r = none` the outcome list was exhausted while the loop was still running.
+Helper lemmas: `Proofs/C18Homotopy.lean`.
+-/
 namespace RtcVerif.C18
 
-/-- legacy overshoot (finding F3) -/
+/-- The loop body never runs iff `theta_start > 1`; then (and only then) `optimize` raises
+    (`return success` with `success` unbound). -/
+theorem C18_raises_iff_start_beyond_one (o : Opts) (l : List Bool) :
+    optimize o l = none ↔ 1 < o.thetaStart := by
+  unfold optimize optimizeWith
+  split
+  · rename_i h; simp only [reduceCtorEq, false_iff, not_lt]; exact h
+  · rename_i h; simp only [true_iff]; exact not_le.1 h
+
+/-- **Success means theta = 1**: a run that returns `True` made its last solve at theta = 1
+    exactly, that solve succeeded, and the stored (last accepted) results are those of theta = 1. -/
+theorem C18_success_means_theta_one (o : Opts) (l : List Bool) (s : St) (hd : 0 < o.delta0)
+    (h : optimize o l = some (s, some true)) :
+    s.acc = some 1 ∧ lastAcc s.solves = some 1 ∧
+      ∃ e t, s.solves = e :: t ∧ e.theta = 1 ∧ e.ok = true := by
+  obtain ⟨h1, hrun⟩ := optimize_some h
+  obtain ⟨_, _, _, hacc, hfin⟩ := run_spec o l (init o) (inv_init o h1 hd)
+  rw [hrun] at hacc hfin
+  obtain ⟨e, t, hs, hok, hth, _⟩ := hfin true rfl
+  have hla : lastAcc s.solves = some 1 := by
+    rw [hs, lastAcc_cons, hok, if_pos rfl, hth rfl]
+  exact ⟨hacc.trans hla, hla, e, t, hs, hth rfl, hok⟩
+
+/-- **Theta never exceeds 1** (and never drops below `theta_start`), at every solve of every
+    run, finished or not. -/
+theorem C18_never_exceeds_one (o : Opts) (l : List Bool) (s : St) (r : Option Bool)
+    (hd : 0 < o.delta0) (h : optimize o l = some (s, r)) :
+    ∀ e ∈ s.solves, o.thetaStart ≤ e.theta ∧ e.theta ≤ 1 := by
+  obtain ⟨h1, hrun⟩ := optimize_some h
+  obtain ⟨hlog, _⟩ := run_spec o l (init o) (inv_init o h1 hd)
+  rw [hrun] at hlog
+  intro e he
+  obtain ⟨pre, t, hs⟩ := List.append_of_mem he
+  have := LogOK.entry pre e t (hs ▸ hlog)
+  exact ⟨this.1, this.2.1⟩
+
+/-- **Theta increases only after a success**: for consecutive solves `p` then `e`,
+    `e.theta > p.theta` iff `p` succeeded, and then `e.theta = min (p.theta + delta) 1`
+    (the increment is clamped at 1, otherwise unchanged). -/
+theorem C18_increase_only_after_success (o : Opts) (l : List Bool) (s : St) (r : Option Bool)
+    (hd : 0 < o.delta0) (h : optimize o l = some (s, r))
+    (pre : List Solve) (e p : Solve) (t : List Solve) (hs : s.solves = pre ++ e :: p :: t) :
+    (p.theta < e.theta ↔ p.ok = true) ∧
+    (p.ok = true → e.theta = min (p.theta + p.delta) 1 ∧ e.delta = min p.delta (1 - p.theta)) := by
+  obtain ⟨h1, hrun⟩ := optimize_some h
+  obtain ⟨hlog, _⟩ := run_spec o l (init o) (inv_init o h1 hd)
+  rw [hrun] at hlog
+  have he := LogOK.entry pre e (p :: t) (hs ▸ hlog)
+  obtain ⟨_, _, _, _, _, hok, hfail⟩ := he
+  refine ⟨⟨?_, fun hp => (hok hp).2.2.2⟩, fun hp => ⟨(hok hp).2.1, (hok hp).2.2.1⟩⟩
+  intro hlt
+  by_contra hne
+  have hf : p.ok = false := by simpa using hne
+  have := (hfail hf).2.2.1
+  linarith
+
+/-- **Step back with a halved increment after a failure**: if `p` failed and `e` is the next
+    solve, then with `a` the last accepted theta, `p.theta = a + delta`, `e.theta = a + delta/2`,
+    `e.delta = delta/2`; in particular `a < e.theta < p.theta`. -/
+theorem C18_step_back_halves (o : Opts) (l : List Bool) (s : St) (r : Option Bool)
+    (hd : 0 < o.delta0) (h : optimize o l = some (s, r))
+    (pre : List Solve) (e p : Solve) (t : List Solve) (hs : s.solves = pre ++ e :: p :: t)
+    (hp : p.ok = false) :
+    ∃ a, lastAcc t = some a ∧ p.theta = a + p.delta ∧ e.theta = a + p.delta / 2 ∧
+      e.delta = p.delta / 2 ∧ a < e.theta ∧ e.theta < p.theta ∧ o.deltaMin ≤ e.delta := by
+  obtain ⟨h1, hrun⟩ := optimize_some h
+  obtain ⟨hlog, _⟩ := run_spec o l (init o) (inv_init o h1 hd)
+  rw [hrun] at hlog
+  have he := LogOK.entry pre e (p :: t) (hs ▸ hlog)
+  have hpE := LogOK.entry (pre ++ [e]) p t (by rw [hs] at hlog; simpa using hlog)
+  obtain ⟨_, _, hedpos, _, ⟨a, hla, _, heth, _⟩, _, hfail⟩ := he
+  obtain ⟨hth, hdl, hlt, hmin⟩ := hfail hp
+  rw [lastAcc_cons, hp] at hla
+  simp only [Bool.false_eq_true, if_false] at hla
+  -- `p` is not the first solve, so it is itself `accepted + delta`
+  obtain ⟨_, _, _, hpm⟩ := hpE
+  cases t with
+  | nil => simp [lastAcc] at hla
+  | cons q t' =>
+    simp only at hpm
+    obtain ⟨_, ⟨a', hla', _, hpth, _⟩, _⟩ := hpm
+    have : a' = a := by rw [hla] at hla'; exact (Option.some.inj hla').symm
+    subst this
+    refine ⟨a', hla, hpth, ?_, hdl, ?_, hlt, by rw [hdl]; exact hmin⟩
+    · rw [heth, hdl]
+    · rw [heth]; linarith
+
+/-- **Seeded with the last accepted solution**: the first solve runs at `theta_start` with the
+    base seed; every later solve runs at `theta > theta_start`, so `HomotopyMixin.seed` overwrites
+    the seed with the stored results, which exist (never the `unset` branch) and are those of the
+    last accepted solve before it. -/
+theorem C18_seeded_with_last_accepted (o : Opts) (l : List Bool) (s : St) (r : Option Bool)
+    (hd : 0 < o.delta0) (h : optimize o l = some (s, r))
+    (pre : List Solve) (e : Solve) (t : List Solve) (hs : s.solves = pre ++ e :: t) :
+    (t = [] → e.theta = o.thetaStart ∧ e.delta = o.delta0 ∧ e.seed = .base) ∧
+    (t ≠ [] → o.thetaStart < e.theta ∧
+        ∃ a, lastAcc t = some a ∧ e.seed = .stored a ∧ a < e.theta) := by
+  obtain ⟨h1, hrun⟩ := optimize_some h
+  obtain ⟨hlog, _⟩ := run_spec o l (init o) (inv_init o h1 hd)
+  rw [hrun] at hlog
+  have he := LogOK.entry pre e t (hs ▸ hlog)
+  obtain ⟨_, _, hdpos, hm⟩ := he
+  constructor
+  · intro ht; subst ht; exact hm
+  · intro ht
+    obtain ⟨q, t', rfl⟩ := List.exists_cons_of_ne_nil ht
+    simp only at hm
+    obtain ⟨hlt, ⟨a, hla, hseed, hth, _⟩, _⟩ := hm
+    exact ⟨hlt, a, hla, hseed, by rw [hth]; linarith⟩
+
+/-- The results stored by the mixin (`self.__results`) are, at every point, those of the last
+    accepted solve of the log. -/
+theorem C18_stored_results_are_last_accepted (o : Opts) (l : List Bool) (s : St) (r : Option Bool)
+    (hd : 0 < o.delta0) (h : optimize o l = some (s, r)) : s.acc = lastAcc s.solves := by
+  obtain ⟨h1, hrun⟩ := optimize_some h
+  obtain ⟨_, _, _, hacc, _⟩ := run_spec o l (init o) (inv_init o h1 hd)
+  rw [hrun] at hacc
+  exact hacc
+
+/-- **Failure conditions** (and success condition), exactly: looking at the most recent solve
+    `e` of a run, the run has ended with `False` iff `e` failed and it was the very first solve or
+    the halved increment is below `delta_theta_min`; it has ended with `True` iff `e` succeeded at
+    theta = 1; otherwise the loop is still running. -/
+theorem C18_failure_conditions (o : Opts) (l : List Bool) (s : St) (r : Option Bool)
+    (hd : 0 < o.delta0) (h : optimize o l = some (s, r))
+    (e : Solve) (t : List Solve) (hs : s.solves = e :: t) :
+    (r = some false ↔ e.ok = false ∧ (t = [] ∨ e.delta / 2 < o.deltaMin)) ∧
+    (r = some true ↔ e.ok = true ∧ e.theta = 1) := by
+  obtain ⟨h1, hrun⟩ := optimize_some h
+  obtain ⟨_, _, hnone, _, hfin⟩ := run_spec o l (init o) (inv_init o h1 hd)
+  rw [hrun] at hnone hfin
+  simp only at hnone hfin
+  cases r with
+  | some b =>
+    obtain ⟨e', t', hs', hok, htrue, hfalse⟩ := hfin b rfl
+    rw [hs] at hs'
+    obtain ⟨rfl, rfl⟩ := List.cons.inj hs'
+    cases b
+    · refine ⟨⟨fun _ => ⟨hok, hfalse rfl⟩, fun _ => rfl⟩, ⟨fun hc => by simp at hc, fun hc => ?_⟩⟩
+      rw [hok] at hc; simp at hc
+    · refine ⟨⟨fun hc => by simp at hc, fun hc => ?_⟩, ⟨fun _ => ⟨hok, htrue rfl⟩, fun _ => rfl⟩⟩
+      rw [hok] at hc; simp at hc
+  | none =>
+    -- still running: the invariant holds, so the last solve did not meet a stop condition
+    have hinv := hnone rfl
+    have hnext := (hinv.next true).2.2.2
+    rw [hs] at hnext
+    simp only at hnext
+    obtain ⟨_, ⟨a, hla, _, _, _⟩, hok, hfail⟩ := hnext
+    refine ⟨⟨fun hc => by simp at hc, fun hc => ?_⟩, ⟨fun hc => by simp at hc, fun hc => ?_⟩⟩
+    · exfalso
+      obtain ⟨hf, hor⟩ := hc
+      have hm := (hfail hf).2.2.2
+      rcases hor with ht | hlt
+      · subst ht; rw [lastAcc_cons, hf] at hla; simp [lastAcc] at hla
+      · linarith
+    · exfalso
+      have := (hok hc.1).1
+      rw [hc.2] at this
+      exact lt_irrefl _ this
+
+/-- **No early stop and no late stop**: a solve that is followed by another one did not meet a
+    stop condition (a success was below 1; a failure was not the first solve and its halved
+    increment was at least `delta_theta_min`). -/
+theorem C18_continues_only_when_allowed (o : Opts) (l : List Bool) (s : St) (r : Option Bool)
+    (hd : 0 < o.delta0) (h : optimize o l = some (s, r))
+    (pre : List Solve) (e p : Solve) (t : List Solve) (hs : s.solves = pre ++ e :: p :: t) :
+    (p.ok = true → p.theta < 1) ∧ (p.ok = false → t ≠ [] ∧ o.deltaMin ≤ p.delta / 2) := by
+  obtain ⟨h1, hrun⟩ := optimize_some h
+  obtain ⟨hlog, _⟩ := run_spec o l (init o) (inv_init o h1 hd)
+  rw [hrun] at hlog
+  have he := LogOK.entry pre e (p :: t) (hs ▸ hlog)
+  obtain ⟨_, _, _, _, ⟨a, hla, _⟩, hok, hfail⟩ := he
+  refine ⟨fun hp => (hok hp).1, fun hp => ⟨?_, (hfail hp).2.2.2⟩⟩
+  rintro rfl
+  rw [lastAcc_cons, hp] at hla
+  simp [lastAcc] at hla
+
+/-- **Termination, for every outcome oracle**: with `delta_theta_min > 0` the loop ends after
+    finitely many solves whatever the inner solves do: any `n` with
+    `(1 - theta_start) + 2 delta_0 < n * min delta_0 delta_min` outcomes suffice. -/
+theorem C18_terminates (o : Opts) (hd : 0 < o.delta0) (hmin : 0 < o.deltaMin)
+    (h1 : o.thetaStart ≤ 1) (f : Nat → Bool) (n : Nat)
+    (hn : (1 - o.thetaStart) + 2 * o.delta0 < (n : Rat) * min o.delta0 o.deltaMin) :
+    ∃ s b, optimize o (outcomes f n) = some (s, some b) := by
+  have hmu : 0 < mu o := lt_min hd hmin
+  have hlen : (outcomes f n).length = n := by simp [outcomes]
+  have := run_terminates o hmu (outcomes f n) (init o) (inv_init o h1 hd)
+    (by rw [hlen]; simpa [pot, init, mu] using hn)
+  cases hr : (run step o (init o) (outcomes f n)).2 with
+  | none => exact absurd hr this
+  | some b =>
+    refine ⟨(run step o (init o) (outcomes f n)).1, b, ?_⟩
+    unfold optimize optimizeWith
+    rw [if_pos h1, ← hr]
+
+/-- **Explicit bound on the number of solves** of any run (finished or not):
+    `#solves * mu ≤ (1 - theta_start) + 2 delta_0 + mu`, `mu = min delta_0 delta_min`. -/
+theorem C18_solve_count_bound (o : Opts) (l : List Bool) (s : St) (r : Option Bool)
+    (hd : 0 < o.delta0) (hmin : 0 < o.deltaMin) (h : optimize o l = some (s, r)) :
+    (s.solves.length : Rat) * min o.delta0 o.deltaMin
+      ≤ (1 - o.thetaStart) + 2 * o.delta0 + min o.delta0 o.deltaMin := by
+  obtain ⟨h1, hrun⟩ := optimize_some h
+  have hmu : 0 < mu o := lt_min hd hmin
+  have := run_count o hmu l (init o) (inv_init o h1 hd)
+  rw [hrun] at this
+  simpa [pot, init, mu] using this
+
+/-- The outcome list is consumed one entry per solve, nothing is solved after the run has ended. -/
+theorem C18_one_outcome_per_solve (o : Opts) (l : List Bool) (s : St) (r : Option Bool)
+    (hd : 0 < o.delta0) (h : optimize o l = some (s, r)) :
+    s.solves.length ≤ l.length ∧ (r = none → s.solves.length = l.length) := by
+  obtain ⟨h1, hrun⟩ := optimize_some h
+  obtain ⟨_, ⟨new, hnew, hlen, hnone⟩, _⟩ := run_spec o l (init o) (inv_init o h1 hd)
+  rw [hrun] at hnew hnone
+  simp only [init, List.append_nil] at hnew
+  rw [hnew]
+  exact ⟨hlen, hnone⟩
+
+/-- **Legacy overshoot witness (finding F3)**: the loop body before commit e603867 returns
+    success after a single solve at theta = 1/2 for `theta_start = 1/2` (the increment 1 carries
+    theta beyond 1 and the `while` test ends the loop with `success = True`). -/
 theorem C18_legacy_overshoot_witness :
-    (optimizeWith stepLegacy ⟨1/2, 1, 1/100⟩ [true]).map (fun r => (r.2, r.1.acc, r.1.solves.length))
-      = some (some true, some (1/2), 1) := by
+    (optimizeWith stepLegacy ⟨1/2, 1, 1/100⟩ [true]).map
+        (fun r => (r.2, r.1.acc, r.1.solves.length)) = some (some true, some (1/2), 1) := by
   decide +kernel
+
+/-- second legacy witness: `delta_theta_0 = 3/10` ends "successfully" with the last accepted
+    solve at 9/10 -/
+theorem C18_legacy_overshoot_witness_delta :
+    (optimizeWith stepLegacy ⟨0, 3/10, 1/100⟩ [true, true, true, true]).map
+        (fun r => (r.2, r.1.acc)) = some (some true, some (9/10)) := by
+  decide +kernel
+
+/-! ### non-vacuity: concrete runs of the repaired loop -/
+
+/-- default options, outcomes T F T F T T: thetas 0, 1, 1/2, 1, 3/4, 1; success -/
+example : (optimize ⟨0, 1, 1/100⟩ [true, false, true, false, true, true]).map
+    (fun r => (r.2, r.1.acc, r.1.solves.reverse.map (·.theta)))
+      = some (some true, some 1, [0, 1, 1/2, 1, 3/4, 1]) := by decide +kernel
+
+/-- the former failing inputs now end at theta = 1 -/
+example : (optimize ⟨1/2, 1, 1/100⟩ [true, true]).map (fun r => (r.2, r.1.acc))
+    = some (some true, some 1) := by decide +kernel
+example : (optimize ⟨0, 3/10, 1/100⟩ [true, true, true, true, true]).map
+    (fun r => (r.2, r.1.acc, r.1.solves.reverse.map (·.theta)))
+      = some (some true, some 1, [0, 3/10, 3/5, 9/10, 1]) := by decide +kernel
+
+/-- failure because the increment would drop below the minimum -/
+example : (optimize ⟨0, 1, 1/4⟩ [true, false, false, false]).map
+    (fun r => (r.2, r.1.acc, r.1.solves.reverse.map (·.theta)))
+      = some (some false, some 0, [0, 1, 1/2, 1/4]) := by decide +kernel
+
+/-- failure of the very first solve -/
+example : (optimize ⟨0, 1, 1/100⟩ [false, true]).map (fun r => (r.2, r.1.solves.length))
+    = some (some false, 1) := by decide +kernel
+
+/-- the hypotheses of `C18_terminates` are satisfiable: default options, 301 outcomes suffice -/
+example : (1 - (0 : Rat)) + 2 * 1 < ((301 : Nat) : Rat) * min 1 (1/100) := by norm_num
 
 end RtcVerif.C18
